@@ -847,6 +847,9 @@ class ManifestRecursiveLoader:
                             new_mpath = mpath + '.' + compress_format
                         else:
                             new_mpath = mpath[:-len(compr)-1]
+                        # never onto another Manifest in use
+                        if new_mpath in self.loaded_manifests:
+                            continue
 
                         # do the rename! (keeping the position in the load
                         # order, which the processing order above relies on)
